@@ -55,60 +55,78 @@ def check(run, P):
 
 
 def _map_call(run, P):
+    from .util import find, first, has, nodoc
     f = P.func(f"{MOD}._ExtendedUnifier.map_call")
+    e, o, u = f.params[1], f.params[2], f.params[3]      # expr, other, urecs
     g = CFG(f.node)
+    body = nodoc(f.node.body)
     tests = [n for n in g.nodes if n.kind == "test"]
     if not tests:
         raise AnalysisError("map_call: no tests")
-    first = tests[0]
-    ok = norm(first.ast) == "not isinstance(expr, type(other))" \
-        and isinstance(first.label.body[0], ast.Return) \
-        and norm(first.label.body[0].value) == "[]" \
-        and first.label is f.node.body[0] or (
-            isinstance(f.node.body[0], ast.Expr) and first.label is f.node.body[1])
-    run.ob("C17.type", f, first.ast, bool(ok),
-           construct=f"first statement: if {norm(first.ast)}: return []",
+    first_if = body[0] if body and isinstance(body[0], ast.If) else None
+    ok = first_if is not None and norm(first_if.test) == f"not isinstance({e}, type({o}))" \
+        and isinstance(first_if.body[0], ast.Return) and norm(first_if.body[0].value) == "[]"
+    run.ob("C17.type", f, first_if.test if first_if is not None else f.node, bool(ok),
+           construct=f"first statement: if not isinstance({e}, type({o})): return []",
            why="a Call matched against a CallWithKwargs (or anything else) would drop "
                "arguments")
-    # length test
-    len_tests = [n for n in tests if "len(" in norm(n.ast) and "!=" in norm(n.ast)
-                 and isinstance(n.label.body[0], ast.Return)]
-    zips = [n for n in g.nodes if n.kind == "for" and isinstance(n.ast.iter, ast.Call)
-            and dotted(n.ast.iter.func) == "zip"]
+    # the two parameter sequences
+    pe = first(f"V_pe = {e}.parameters", f.node)
+    po = first(f"V_po = {o}.parameters", f.node)
+    if pe[0] is None or po[0] is None:
+        raise AnalysisError("map_call: parameter sequences not found")
+    pe, po = pe[1]["V_pe"], po[1]["V_po"]
+    zips = [n for n in g.nodes if n.kind == "for" and norm(n.ast.iter) == f"zip({pe}, {po})"]
     if not zips:
         raise AnalysisError("map_call: zip over the parameter lists not found")
+    len_tests = [n for n in tests if norm(n.ast) in (f"len({pe}) != len({po})", f"len({po}) != len({pe})")
+                 and isinstance(n.label.body[0], ast.Return) and norm(n.label.body[0].value) == "[]"]
     ok = bool(len_tests) and not g.always_preceded(zips, len_tests)
-    lt = norm(len_tests[0].ast) if len_tests else ""
-    ok = ok and "expr_parameters" in lt and "other_parameters" in lt
     run.ob("C17.arity", f, len_tests[0].ast if len_tests else zips[0].ast, ok,
-           construct=f"if {lt}: return []  dominates the zip",
+           construct=f"if len({pe}) != len({po}): return []  dominates the zip",
            why="zip truncates: f(a) would match f(a, b) with b ignored")
-    key_tests = [n for n in tests if "kw_parameters.keys()" in norm(n.ast)
-                 and "!=" in norm(n.ast) and isinstance(n.label.body[0], ast.Return)]
+    key_tests = [n for n in tests if norm(n.ast) in (
+        f"set({e}.kw_parameters.keys()) != set({o}.kw_parameters.keys())",
+        f"set({o}.kw_parameters.keys()) != set({e}.kw_parameters.keys())",
+        f"set({e}.kw_parameters) != set({o}.kw_parameters)")
+        and isinstance(n.label.body[0], ast.Return)]
     augs = [n for n in g.nodes if n.kind == "stmt" and isinstance(n.ast, ast.AugAssign)
-            and "kw_parameters" in ast.unparse(n.ast.value)]
+            and dotted(n.ast.target) in (pe, po)]
     ok = bool(key_tests) and bool(augs) and not g.always_preceded(augs, key_tests)
-    kt = norm(key_tests[0].ast) if key_tests else ""
-    ok = ok and "set(expr.kw_parameters.keys())" in kt and "set(other.kw_parameters.keys())" in kt
     run.ob("C17.arity", f, key_tests[0].ast if key_tests else f.node, ok,
-           construct=f"if {kt}: return []  dominates the keyword pairing",
+           construct="if the keyword name sets differ: return []  dominates the keyword pairing",
            why="different keyword names must not match")
-    # both sides built the same way, sorted by key
     shapes = {}
     for n in augs:
-        tgt = dotted(n.ast.target)
-        src = ast.unparse(n.ast.value)
-        shapes[tgt] = src
-    sides = {"expr_parameters": "expr", "other_parameters": "other"}
-    norm_shapes = {t: s.replace(sides.get(t, "?") + ".", "X.") for t, s in shapes.items()}
-    same = len(set(norm_shapes.values())) == 1 and len(shapes) == 2
+        shapes[dotted(n.ast.target)] = n.ast.value
+    sides = {pe: e, po: o}
+
+    def canon(tgt, value):
+        import copy
+        v = copy.deepcopy(value)
+        # rename the side-specific root and comprehension variables
+        gens = [x for x in ast.walk(v) if isinstance(x, ast.comprehension)]
+        ren = {sides.get(tgt, "?"): "SIDE"}
+        k = 0
+        for gcomp in gens:
+            for t in ast.walk(gcomp.target):
+                if isinstance(t, ast.Name):
+                    ren.setdefault(t.id, f"c{k}")
+                    k += 1
+        for x in ast.walk(v):
+            if isinstance(x, ast.Name) and x.id in ren:
+                x.id = ren[x.id]
+        return ast.dump(v)
+
+    same = len(shapes) == 2 and len({canon(t, v) for t, v in shapes.items()}) == 1
     run.ob("C17.arity", f, augs[0].ast if augs else f.node, same,
-           construct=f"keyword values appended by the same construction on both sides",
+           construct="keyword values appended by the same construction on both sides",
            why="sides built differently pair different keywords")
-    for t, s in sorted(shapes.items()):
-        ok = "sorted(" in s and ".kw_parameters.items()" in s
-        run.ob("C17.arity", f, f.node, ok,
-               construct=f"{t} += {s[:90]}",
+    for t, v in sorted(shapes.items()):
+        ok = has(f"sorted({sides.get(t, '?')}.kw_parameters.items(), key=ANY)", v) \
+            or has(f"sorted({sides.get(t, '?')}.kw_parameters.items())", v)
+        run.ob("C17.arity", f, v, ok,
+               construct=f"{t} += {norm(v, 90)}",
                why="keyword arguments are a mapping: paired in writing order, "
                    "f(t=a, y=b) matches g(y=q, t=p) with a bound to q")
     # threading
@@ -116,29 +134,30 @@ def _map_call(run, P):
     ok = bool(recs)
     for x in recs:
         par = None
-        for s in ast.walk(f.node):
-            if isinstance(s, ast.Assign) and s.value is x:
-                par = s
-        ok = ok and par is not None and dotted(par.targets[0]) == "urecs" \
-            and len(x.args) == 3 and dotted(x.args[2]) == "urecs"
+        for s_ in ast.walk(f.node):
+            if isinstance(s_, ast.Assign) and s_.value is x:
+                par = s_
+        ok = ok and par is not None and dotted(par.targets[0]) == u \
+            and len(x.args) == 3 and dotted(x.args[2]) == u
     run.ob("C17.thread", f, recs[0] if recs else f.node, ok,
-           construct=f"{len(recs)} recursive unifications: urecs = self.rec(a, b, urecs)",
+           construct=f"{len(recs)} recursive unifications: {u} = self.rec(a, b, {u})",
            why="a unification whose result is dropped, or that starts from a fresh "
                "record list, loses or ignores bindings")
-    fsym = [x for x in recs if norm(x.args[0]) == "expr.function" and norm(x.args[1]) == "other.function"]
+    fsym = [x for x in recs if norm(x.args[0]) == f"{e}.function" and norm(x.args[1]) == f"{o}.function"]
     run.ob("C17.thread", f, fsym[0] if fsym else f.node, bool(fsym),
            construct="function symbols are unified: self.rec(expr.function, other.function, urecs)",
            why="f(x) must not match g(x) unless f is a free variable bound to g")
-    rets = [s for s in func_body_stmts(f.node) if isinstance(s, ast.Return)]
-    ok = bool(rets) and norm(rets[-1].value) == "urecs"
+    rets = [s_ for s_ in func_body_stmts(f.node) if isinstance(s_, ast.Return)]
+    ok = bool(rets) and norm(rets[-1].value) == u
     run.ob("C17.thread", f, rets[-1] if rets else f.node, ok,
-           construct="return urecs",
+           construct=f"return {u}",
            why="the threaded records are the result")
-    # zip pairs and recursion in the loop
     lp = zips[0].ast
-    ok = any(isinstance(s, ast.Assign) and dotted(s.targets[0]) == "urecs"
-             and isinstance(s.value, ast.Call) and dotted(s.value.func) == "self.rec"
-             for s in lp.body) and norm(lp.iter) == "zip(expr_parameters, other_parameters)"
+    ok = any(isinstance(s_, ast.Assign) and dotted(s_.targets[0]) == u
+             and isinstance(s_.value, ast.Call) and dotted(s_.value.func) == "self.rec"
+             and isinstance(lp.target, ast.Tuple)
+             and [dotted(a_) for a_ in s_.value.args[:2]] == [dotted(t_) for t_ in lp.target.elts]
+             for s_ in lp.body)
     alias = P.cls(f"{MOD}._ExtendedUnifier").attrs.get("map_call_with_kwargs")
     run.ob("C17.thread", f, lp, ok and isinstance(alias, ast.Name) and alias.id == "map_call",
            construct="every parameter pair is unified; map_call_with_kwargs = map_call",
@@ -146,43 +165,50 @@ def _map_call(run, P):
 
 
 def _identity(run, P):
+    from .util import find, first, has
     f = P.func(f"{MOD}._ExtendedUnifier.map_modulo_identity")
-    src = ast.unparse(f.node)
+    e, o, u, mp, ide = f.params[1:6]
     comp = [x for x in ast.walk(f.node) if isinstance(x, ast.SetComp)]
     ok = False
     if comp:
         c = comp[0]
-        conds = " and ".join(norm(i) for i in c.generators[0].ifs)
-        ok = "isinstance(term, Variable)" in conds and "term.name in self.lhs_mapping_candidates" in conds \
-            and norm(c.generators[0].iter) == "expr.children"
+        gen = c.generators[0]
+        if isinstance(gen.target, ast.Name):
+            v = gen.target.id
+            conds = " and ".join(norm(i) for i in gen.ifs)
+            ok = f"isinstance({v}, Variable)" in conds \
+                and f"{v}.name in self.lhs_mapping_candidates" in conds \
+                and norm(gen.iter) == f"{e}.children" and dotted(c.elt) == v
     run.ob("C17.identity", f, comp[0] if comp else f.node, ok,
            construct="identity candidates: children that are Variables in lhs_mapping_candidates",
            why="binding a non-free variable (or a non-variable) to the identity "
                "element reports a match that is not one")
-    mc = [x for x in ast.walk(f.node) if isinstance(x, ast.Call) and dotted(x.func) == "mapper"
-          and len(x.args) == 3]
-    loop_calls = []
-    for lp in ast.walk(f.node):
-        if isinstance(lp, ast.For):
-            loop_calls += [x for x in ast.walk(lp) if x in mc]
-    ok = bool(loop_calls)
-    for x in loop_calls:
-        a = x.args[2]
-        ok = ok and isinstance(a, ast.Call) and dotted(a.func) == "unify_many" \
-            and len(a.args) == 2 and dotted(a.args[0]) == "urecs" and dotted(a.args[1]) == "urec"
-    run.ob("C17.identity", f, loop_calls[0] if loop_calls else f.node, ok,
+    loops = [n for n in ast.walk(f.node) if isinstance(n, ast.For)]
+    ok = False
+    site = f.node
+    ok3 = False
+    if loops and isinstance(loops[0].target, ast.Name):
+        lp = loops[0]
+        var_ = lp.target.id
+        ur = first(f"V_ur = self.unification_record_from_equation({var_}, {ide})", lp)
+        no = first(f"V_no = type({e})(({ide}, {o}))", f.node)
+        ok3 = ur[0] is not None and no[0] is not None
+        if ok3:
+            calls = find(f"{mp}({e}, {no[1]['V_no']}, unify_many({u}, {ur[1]['V_ur']}))", lp)
+            allcalls = [x for x in ast.walk(lp) if isinstance(x, ast.Call) and dotted(x.func) == mp]
+            ok = bool(calls) and len(calls) == len(allcalls)
+            site = allcalls[0] if allcalls else lp
+    run.ob("C17.identity", f, site, ok,
            construct="mapper(expr, new_other, unify_many(urecs, urec))",
            why="replacing the records collected so far by the identity binding alone "
                "forgets earlier bindings: f(x, b*a) matches f(2, a) with x lost, and "
                "contradictory bindings are accepted")
-    ok = "urec = self.unification_record_from_equation(variable, id_element)" in src \
-        and "new_other = type(expr)((id_element, other))" in src
-    run.ob("C17.identity", f, f.node, ok,
+    run.ob("C17.identity", f, f.node, ok3,
            construct="urec binds the variable to id_element; other becomes (id_element, other)",
            why="x*c ~ c needs x = 1 and the target rewritten as 1*c")
     tests = [n for n in ast.walk(f.node) if isinstance(n, ast.If)]
-    ok = bool(tests) and norm(tests[0].test) == "len(expr.children) != 2 or hasattr(other, 'children')" \
-        and norm(tests[0].body[0]) == "return mapper(expr, other, urecs)"
+    ok = bool(tests) and norm(tests[0].test) == f"len({e}.children) != 2 or hasattr({o}, 'children')" \
+        and norm(tests[0].body[0]) == f"return {mp}({e}, {o}, {u})"
     run.ob("C17.identity", f, tests[0] if tests else f.node, ok,
            construct="otherwise defer to the ordinary mapper with the records unchanged",
            why="restriction stated in the docstring")
@@ -191,51 +217,50 @@ def _identity(run, P):
         calls = [x for x in ast.walk(m.node) if isinstance(x, ast.Call)
                  and dotted(x.func) == "self.map_modulo_identity"]
         ok = bool(calls) and isinstance(calls[0].args[-1], ast.Constant) \
-            and calls[0].args[-1].value == ident \
-            and f"mapper = super().{name}" in ast.unparse(m.node)
+            and calls[0].args[-1].value == ident and len(calls[0].args) == 5
+        if ok:
+            marg = calls[0].args[3]
+            ok = norm(marg) == f"super().{name}" or (
+                isinstance(marg, ast.Name) and has(f"{marg.id} = super().{name}", m.node))
         run.ob("C17.identity", m, calls[0] if calls else m.node, ok,
                construct=f"{name}: identity element {ident}, super().{name} as mapper",
                why="the identity of + is 0 and of * is 1")
 
 
 def _match(run, P):
+    from .util import find, first, has
     f = P.func(f"{MOD}.match")
     g = CFG(f.node)
-    # pre_match loop
     loops = [n for n in ast.walk(f.node) if isinstance(n, ast.For)
-             and "pre_match.items()" in ast.unparse(n.iter)]
-    if len(loops) != 1:
+             and norm(n.iter) == "pre_match.items()"]
+    if len(loops) != 1 or not isinstance(loops[0].target, ast.Tuple):
         raise AnalysisError("match: pre_match loop not found")
     lp = loops[0]
-    first = lp.body[0]
-    ok = isinstance(first, ast.If) and norm(first.test) == "name not in free_variable_names" \
-        and isinstance(first.body[0], ast.Raise)
-    run.ob("C17.prematch", f, first, ok,
+    kname, vname = (dotted(t) for t in lp.target.elts)
+    first_stmt = lp.body[0]
+    ok = isinstance(first_stmt, ast.If) and norm(first_stmt.test) == f"{kname} not in free_variable_names" \
+        and isinstance(first_stmt.body[0], ast.Raise)
+    run.ob("C17.prematch", f, first_stmt, ok,
            construct="every pre_match name: if name not in free_variable_names: raise ValueError",
            why="a pre-supplied binding for a non-free name would bind a bound variable")
     recs = [x for x in ast.walk(f.node) if isinstance(x, ast.Call)
             and dotted(x.func) == "UnificationRecord"]
     in_loop = [x for x in recs if any(y is x for y in ast.walk(lp))]
     ok = len(recs) == 1 and not in_loop
+    eq_list = None
     if ok:
-        # built from the list that the loop fills
-        arg = dotted(recs[0].args[0]) if recs[0].args else None
-        fills = any(isinstance(x, ast.Call) and dotted(x.func) == f"{arg}.append"
-                    for x in ast.walk(lp))
-        ok = fills
+        eq_list = dotted(recs[0].args[0]) if recs[0].args else None
+        ok = bool(eq_list) and has(f"{eq_list}.append(ANY)", lp)
     run.ob("C17.prematch", f, recs[0] if recs else lp, ok,
            construct="one UnificationRecord built after the loop from all equations",
            why="one record per entry turns the pre-supplied bindings into alternatives: "
                "a match that honours only one of them is accepted")
-    ok = any(isinstance(x, ast.Call) and "append" in (dotted(x.func) or "")
-             and "(Variable(name), expr)" in ast.unparse(x) for x in ast.walk(lp))
+    ok = bool(eq_list) and has(f"{eq_list}.append((Variable({kname}), {vname}))", lp)
     run.ob("C17.prematch", f, lp, ok,
            construct="equation (Variable(name), expr) for every entry",
            why="binding direction")
-    # free variables
-    src = ast.unparse(f.node)
-    ok = "free_variable_names = get_variables(template, include_function_symbols=True)" in src \
-        and "free_variable_names -= set(bound_variable_names)" in src
+    ok = has("free_variable_names = get_variables(template, include_function_symbols=True)", f.node) \
+        and has("free_variable_names -= set(bound_variable_names)", f.node)
     run.ob("C17.free", f, f.node, ok,
            construct="default: variables of the template (incl. function symbols) minus bound names",
            why="only declared free variables may be bound")
@@ -245,12 +270,20 @@ def _match(run, P):
     run.ob("C17.free", f, ctor[0] if ctor else f.node, ok,
            construct="_ExtendedUnifier(free_variable_names)",
            why="the unifier binds exactly the names it is constructed with")
-    # records[0] guarded
+    # the records: result of calling the unifier
+    un = first("V_un = _ExtendedUnifier(free_variable_names)", f.node)
+    rec_name = None
+    if un[0] is not None:
+        r = first(f"V_recs = {un[1]['V_un']}(ANY, ANY, ANY)", f.node)
+        if r[0] is not None:
+            rec_name = r[1]["V_recs"]
+    if rec_name is None:
+        raise AnalysisError("match: record list not identified")
     idx = [n for n in g.nodes if n.kind == "stmt" and any(
-        isinstance(x, ast.Subscript) and dotted(x.value) == "records"
+        isinstance(x, ast.Subscript) and dotted(x.value) == rec_name
         and isinstance(x.slice, ast.Constant) and x.slice.value == 0
         for x in walk_fragment(n.ast))]
-    guards = [n for n in g.nodes if n.kind == "test" and norm(n.ast) == "not records"
+    guards = [n for n in g.nodes if n.kind == "test" and norm(n.ast) == f"not {rec_name}"
               and isinstance(n.label.body[0], ast.Raise)
               and "ValueError" in ast.unparse(n.label.body[0])]
     ok = bool(idx) and bool(guards) and not g.always_preceded(idx, guards)
